@@ -63,6 +63,7 @@ Definition out_key (o : out) : N :=
   | OFail r _ => 3 * 1099511627776 + r
   | OReq r _ _ _ => 4 * 1099511627776 + r
   | OWire c _ _ => 5 * 1099511627776 + c
+  | OBind c _ => 6 * 1099511627776 + c
   end.
 Definition enc_out (o : out) : list N :=
   match o with
@@ -71,7 +72,9 @@ Definition enc_out (o : out) : list N :=
   | OFail r c => [3; r; c]
   | OReq r p l t => [4; r; p; l; canon_tag l t]
   | OWire c l t => [5; c; l; canon_tag l t]
+  | OBind _ _ => []
   end.
+Definition printed (o : out) : bool := match o with OBind _ _ => false | _ => true end.
 
 Fixpoint dedup (l : list N) : list N :=
   match l with
@@ -95,7 +98,7 @@ Fixpoint run_trace (c : cfg) (st : pst * env) (l : list ev) : list N :=
   match l with
   | [] => []
   | e :: t => let '(st1, o, tg) := step c st e in
-              enc_opt tg :: enc_list enc_out (sort_by out_key o) ++ dump (fst st1) ++ run_trace c st1 t
+              enc_opt tg :: enc_list enc_out (sort_by out_key (filter printed o)) ++ dump (fst st1) ++ run_trace c st1 t
   end.
 
 Definition run_case (l : list N) : list N :=
